@@ -152,8 +152,14 @@ def run(report, p):
             if isinstance(n, ast.Assign) and isinstance(n.targets[0], ast.Subscript):
                 tgt = n.targets[0]
                 base = tgt.value
-                while isinstance(base, ast.Subscript):
-                    base = base.value
+                while isinstance(base, (ast.Subscript, ast.Call)):
+                    if isinstance(base, ast.Call):
+                        if isinstance(base.func, ast.Attribute) and base.func.attr in ("setdefault", "get"):
+                            base = base.func.value
+                        else:
+                            break
+                    else:
+                        base = base.value
                 vals = [n.value] if not isinstance(n.value, ast.Dict) else list(n.value.values)
                 for v in vals:
                     for o in pr.origins(v, f):
